@@ -681,11 +681,20 @@ fn function_doc(trivia: &Trivia, function: &Function) -> Doc {
     }
 }
 
-/// Render a spawn (`@f`, `@~`, `@{ … }`, `@('int) { … }`). An inline spawned function must use the
-/// `@`-sugar forms — the parser does not accept `@#…` — so a function head is emitted as `@{ body }`
-/// or `@(type) { body }` (the parenthesised arm accepts any type).
+/// Render a spawn (`@f`, `@~`, `@{ … }`, `@('int) { … }`). An inline spawned function uses the
+/// `@`-sugar forms, so a function head is emitted as `@{ body }` or `@(type) { body }` (the
+/// parenthesised arm accepts any type). The sugar can only express a parameter type and a body; a
+/// function literal that is body-less, generic or has a return type keeps its explicit `@#…` form
+/// (`@` applied to a function term).
 fn spawn_doc(trivia: &Trivia, func: &Term) -> Doc {
     match func {
+        Term::Function(function)
+            if function.body.is_none()
+                || !function.type_parameters.is_empty()
+                || function.return_type.is_some() =>
+        {
+            pretty::concat(vec![pretty::text("@"), function_doc(trivia, function)])
+        }
         Term::Function(function) => {
             let head = match &function.parameter_type {
                 None => "@".to_string(),
